@@ -2,12 +2,23 @@
 EXTENDS RateLimiterFilter, Json
 VARIABLE out
 
-U(ms, ex, pre, ref) == [ms |-> ms, exact |-> ex, prefix |-> pre, ref |-> ref]
+UR(ms, ex, pre, re, ref) == [ms |-> ms, exact |-> ex, prefix |-> pre, regex |-> re, empty |-> FALSE, ref |-> ref]
+U(ms, ex, pre, ref) == UR(ms, ex, pre, <<>>, ref)
+UE(ms, ref) == [ms |-> ms, exact |-> <<>>, prefix |-> <<>>, regex |-> <<>>, empty |-> TRUE, ref |-> ref]
 Po(name, l, tmo, per) == [name |-> name, L |-> l, tmo |-> tmo, per |-> per]
 A   == <<"/", "a">>
 AX  == <<"/", "a", "/", "x">>
 B   == <<"/", "b">>
+BX  == <<"/", "b", "/", "x">>
+AS  == <<"/", "a", "/">>
+XA  == <<"/", "x", "/", "a">>
 No  == <<>>
+(* regular expressions, as token sequences:  ^/a/.*   /x$   ^/[ab]$   /x   ^/a/.$ *)
+ReA   == <<"^", "/", "a", "/", ".*">>
+ReX   == <<"/", "x", "$">>
+ReAB  == <<"^", "/", "[ab]", "$">>
+ReXu  == <<"/", "x">>
+ReA1  == <<"^", "/", "a", "/", ".", "$">>
 
 (* fully explicit policies (period 1h): timeout 0, = period, 1.5 periods *)
 P1  == Po("p1", 2, 0, "h")
@@ -23,6 +34,14 @@ P5  == Po("p5", 1, 0, "d")
 S(id, fam, def, pols, urls) == [id |-> id, fam |-> fam, def |-> def, pols |-> pols, urls |-> urls]
 R1 == U(<<"GET">>, AX, No, "")
 R2 == U(<<>>, No, A, "p2")
+(* family 4: rules whose URL is a regular expression - alone, or next to a prefix / an exact pattern -  *)
+(* with and without method lists                                                                        *)
+R3 == UR(<<"GET", "PUT">>, No, No, ReA, "")
+R4 == UR(<<>>, No, B, ReX, "p2")
+R5 == UR(<<"GET">>, A, No, ReXu, "p2")
+(* family 5: url.empty (the path "" only), an anchored character class, defaulted policy *)
+R6 == UE(<<>>, "p3")
+R7 == UR(<<"GET", "POST">>, No, No, ReAB, "")
 
 SpecU ==
   { S(1, 1, "p1", <<P1, P2>>, <<R1, R2>>),
@@ -45,11 +64,29 @@ SpecU ==
     (* family 3: policies referenced by name that leave the period (and the timeout) to the defaults *)
     S(11, 3, "p1", <<P1, P4, P5>>, <<U(<<"GET">>, AX, No, "p4"), U(<<>>, No, A, "p5")>>),
     S(12, 3, "p1", <<P1, P4, P5>>, <<U(<<"GET">>, AX, No, "p4"), U(<<>>, No, A, "p5")>>),
-    S(13, 3, "p1", <<P1, P4, P5>>, <<U(<<"GET">>, AX, No, "p4"), U(<<>>, No, A, "")>>) }
+    S(13, 3, "p1", <<P1, P4, P5>>, <<U(<<"GET">>, AX, No, "p4"), U(<<>>, No, A, "")>>),
+    (* family 4 *)
+    S(14, 4, "p1", <<P1, P2>>, <<R3, R4>>),
+    (* byte-identical: every (regex) rule carried over *)
+    S(15, 4, "p1", <<P1, P2>>, <<R3, R4>>),
+    (* order swapped, both unchanged *)
+    S(16, 4, "p1", <<P1, P2>>, <<R4, R3>>),
+    (* only the regular expression of rule 1 changed (fresh limiter), rule 2 unchanged *)
+    S(17, 4, "p1", <<P1, P2>>, <<UR(<<"GET", "PUT">>, No, No, ReA1, ""), R4>>),
+    (* policy p2 changed: the regex-only rule is carried over, the other one is fresh; a rule added in front *)
+    S(18, 4, "p1", <<P1, P2x>>, <<R5, R3, R4>>),
+    (* method list of the regex rule changed / reordered (DeepEqual compares it position by position) *)
+    S(19, 4, "p1", <<P1, P2>>, <<UR(<<"PUT", "GET">>, No, No, ReA, ""), R4>>),
+    (* family 5 *)
+    S(20, 5, "p1", <<P1, P3>>, <<R6, R7>>),
+    S(21, 5, "p1", <<P1, P3>>, <<R6, R7>>),
+    S(22, 5, "p3", <<P1, P3>>, <<R7, R6>>) }
 
 ReqU == { [m |-> "GET", path |-> AX], [m |-> "POST", path |-> AX], [m |-> "GET", path |-> A],
           [m |-> "POST", path |-> B], [m |-> "GET", path |-> B], [m |-> "PUT", path |-> AX],
-          [m |-> "GET", path |-> <<"/">>] }
+          [m |-> "GET", path |-> <<"/">>],
+          [m |-> "GET", path |-> BX], [m |-> "PUT", path |-> AS], [m |-> "GET", path |-> XA],
+          [m |-> "POST", path |-> <<>>] }
 
 BurstU == {2, 10}
 
